@@ -1,6 +1,32 @@
 """C05 — one live stream per path; replace/unregister/idle-close keep the registry consistent."""
-SPELL = {"a": ["/a", "/A", " /a ", "a", "/a/.", "//a", "/x/../a"], "b": ["/b/c", "/B/c", "b/c", "/b//c", "/b/./C "],
-         "c": ["/a/b", "/A/B", "a/b/"]}
+import random as _random
+
+# Spellings of one canonical path, covering every feature of utils.CanonicalPath: letter case, a missing leading
+# slash, blanks (space, tab) at the edges, "//", "/./", "/x/../" (x possibly blank-edged) between segments, and a
+# tail — for a path without trailing slash: nothing, "/.", "/x/..", " /x/.." (the blank left by resolving ".." is
+# trimmed by the next pass); for a path with trailing slash: "/", "//", "/./", "/x/../", "/.//" — each combined with
+# the others.  Whether two spellings really are one key is decided by the Gallina canonical_path, not here.
+def respell(rng, segs, trailing):
+    out = ""
+    for k, seg in enumerate(segs):
+        sep = rng.choice(["/", "/", "/", "//", "/./", "/x/../", "/ y /../", "/.//"])
+        if k == 0 and rng.random() < 0.25:
+            sep = ""                                   # missing leading slash
+        out += sep + "".join(ch.upper() if rng.random() < 0.3 else ch for ch in seg)
+    if trailing:
+        out += rng.choice(["/", "/", "//", "/./", "/x/../", "/.//", "/X/..//"])
+    else:
+        out += rng.choice(["", "", "", "/.", "/x/..", " /x/..", "/./."])
+    return rng.choice(["", "", "", " ", "\t", "  "]) + out + rng.choice(["", "", "", " ", "\t ", "  "])
+
+def _spellings(seed, segs, trailing, fixed):
+    r = _random.Random(seed)
+    return fixed + [respell(r, segs, trailing) for _ in range(40)]
+
+SPELL = {"a": _spellings(1, ["a"], False, ["/a", "/A", " /a ", "a", "/a/.", "//a", "/x/../a"]),
+         "b": _spellings(2, ["b", "c"], False, ["/b/c", "/B/c", "b/c", "/b//c", "/b/./C "]),
+         "c": _spellings(3, ["a", "b"], True, ["/a/b/", "/A/B/", "a/b/", "/a/b//", "/a/b/./", "/a/b/x/../", " /A//b/.// "]),
+         "d": _spellings(4, ["live", "door"], True, ["/live/door/", "/LIVE/door/tmp/..//", "/live/door/./", "/live/door/x/../"])}
 
 FIXED = [1, 1, 1]      # (close unmaps, idle counts every consumer kind, every playlist request is an access)
 
@@ -12,7 +38,7 @@ def gen_case(rng, nops, variant):
         if nstreams > 0 and rng.random() < (0.2 if k >= nops - 3 else 0.01):
             ops.append([10, 0])
         elif r < 0.2 or nstreams == 0:
-            ops.append([0, rng.choice(SPELL[rng.choice("abc")]), rng.random() < 0.6]); nstreams += 1
+            ops.append([0, rng.choice(SPELL[rng.choice("abcd")]), rng.random() < 0.6]); nstreams += 1
         elif r < 0.42:
             i = rng.randrange(nstreams)
             ops.append([1, i])
@@ -21,7 +47,7 @@ def gen_case(rng, nops, variant):
         elif r < 0.57:
             ops.append([3, rng.randrange(nstreams)])
         elif r < 0.72:
-            ops.append([4, rng.choice(SPELL[rng.choice("abc")])])
+            ops.append([4, rng.choice(SPELL[rng.choice("abcd")])])
         elif r < 0.77:
             ops.append([5, 0])
         elif r < 0.8:
@@ -45,7 +71,7 @@ def gen_case(rng, nops, variant):
 # HLS viewers only: a stream (usually with a playlist) is polled in every playlist state (0..4+ segments), segments
 # are fetched, the clock ticks, and the idle task runs with a period around the time since the last access
 def hls_shape(rng, variant):
-    sp = SPELL[rng.choice("abc")]
+    sp = SPELL[rng.choice("abcd")]
     ops = [[0, rng.choice(sp), rng.random() < 0.9], [1, 0]]
     p = rng.randint(1, 6)
     for _ in range(rng.choice([0, 0, 0, 1, 2, 2, 3, 4, 5])):     # mostly not yet servable (fewer than 3 segments)
@@ -76,7 +102,7 @@ def hls_shape(rng, variant):
 # the shape that matters to replacement: publisher A (consumers), replaced by B (and C) under another spelling,
 # the replaced publishers leaving late, then an end that goes through the registry (shutdown, further publisher, …)
 def reg_shape(rng):
-    sp = SPELL[rng.choice("abc")]
+    sp = SPELL[rng.choice("abcd")]
     ops = []
     def attach(i):
         for _ in range(rng.randint(0, 3)):
